@@ -2,6 +2,7 @@ package batchrun
 
 import (
 	"fmt"
+	"math"
 	"strings"
 
 	"pgregory.net/rapid"
@@ -263,7 +264,7 @@ func drawC16(t *rapid.T, x *X) *Case {
 	c.Opts.WarmStats = c.Opts.Stats && gspec.U(t, 5, "warmstats") == 0
 	c.Opts.Debug = gspec.U(t, 12, "debug") == 0
 	c.Opts.AllowInvalid = gspec.U(t, 4, "allowinv") == 0
-	c.Aux = map[string]int{"mode": gspec.U(t, 8, "budgetmode"), "frac": gspec.U(t, 100, "budgetfrac")}
+	c.Aux = map[string]int{"mode": gspec.U(t, 10, "budgetmode"), "frac": gspec.U(t, 100, "budgetfrac")}
 	return c
 }
 
@@ -285,6 +286,11 @@ func budgetFor(mode, frac int, n uint64) uint64 {
 		b = n / 2
 	case 5, 6:
 		b = n * uint64(frac) / 100
+	case 8:
+		// budgets at the top of the range: any n > 0 is a budget
+		b = []uint64{math.MaxUint64, 1 << 63, 1<<63 + 1, math.MaxUint64 - 1}[frac%4]
+	case 9:
+		b = []uint64{1<<63 - 1, 1 << 32, 1 << 31, 1<<32 + 1}[frac%4]
 	default:
 		b = 2*n + 7
 	}
@@ -412,7 +418,7 @@ func checkC16(x *X, c *Case, strict bool) *Outcome {
 			o.Viol = viol(pk, &cc, "budget_exceeded", fmt.Sprintf("MaxExpressions(%d) but %d code blocks ran", budget, len(ctx.Events)), "", describeResp(resp))
 			return o
 		}
-		if resp.HasStats && resp.ExprCnt > budget+1 {
+		if resp.HasStats && budget < math.MaxUint64 && resp.ExprCnt > budget+1 {
 			o.Viol = viol(pk, &cc, "budget_exceeded", fmt.Sprintf("MaxExpressions(%d) but Stats.ExprCnt = %d", budget, resp.ExprCnt), "", describeResp(resp))
 			return o
 		}
